@@ -548,7 +548,22 @@ def gen_special(rng, n, flags):
         st = b"HTTP/1.1 200 OK\r\nTransfer-Encoding: chunked\r\n\r\n" + v + b"\r\nsome chunk bytes\r\n0\r\n\r\n"
         fixed.append(mkcase(["O", "S" + hx(st), "S" + hx(b"more"), "C"]))
         fixed.append(mkcase(["O"] + ops_for(st, [50, 53, 60]) + ["C"]))
+    # 4. the -1004 path (empty chunk-length lines) with every single cut, also right after a header block that ends a chunk
+    for pre in (b"\r\n\r\n", b"\n", b" \t\r\n\n\n", b"\x0b\x0c\n"):
+        st = b"HTTP/1.1 200 OK\r\nTransfer-Encoding: chunked\r\n\r\n" + pre + b"3\r\nabc\r\n" + pre + b"0\r\n\r\n"
+        for ops in deliveries(rng, st, flags, exhaustive_upto=200, multi=2):
+            fixed.append(mkcase(["O"] + ops + ["C"]))
     out += fixed
+    # 5. mixtures of line ends in the header block (LF-CR heuristic, CR CR LF, LF CR CR LF CR LF), every single cut
+    ends = [b"\n\r", b"\r\n", b"\n", b"\r", b"\r\r\n", b"\n\r\r\n\r\n", b"\r\n\r\n", b"\n\r\n"]
+    for _ in range(max(0, n // 40)):
+        st = b"HTTP/1.1 200 OK" + rng.choice(ends[:3])
+        for _ in range(rng.randint(1, 4)):
+            st += rng.choice([b"A: b", b"C:d", b" fold", b"", b"Content-Length: 2", b"E"]) + rng.choice(ends)
+        st += rng.choice([b"\r\n", b"\n", b"\n\r\n", b""]) + rng.choice([b"\rab", b"ab", b"\n\rxy", b"HTTP/1.1 204 No\r\n\r\n"])
+        tail = rng.choice([["C"], [], ["S" + hx(b"zz"), "C"]])
+        for ops in deliveries(rng, st, flags, exhaustive_upto=80, multi=1):
+            out.append(mkcase(["O"] + ops + tail, mkcfg(p=rng.choice([0, 0, 5, 9]))))
     ok = b"HTTP/1.1 200 OK\r\nContent-Length: 2\r\n\r\nok"
     while len(out) < n:
         stream = b"".join(response(rng, rng.random() < 0.5) for _ in range(rng.choice([1, 2])))
